@@ -636,6 +636,9 @@ func isZeroVal(v value) bool {
 
 type extFn func(p *Path, fr *frame, args []value) value
 
+// stdSizes gives the gc/amd64 sizes the native replay runs with.
+var stdSizes = types.SizesFor("gc", "amd64")
+
 var externals = map[string]extFn{}
 
 func init() {
@@ -680,7 +683,11 @@ func init() {
 			if n < 0 {
 				panic(p.reflectPanic("reflect: negative length passed to ArrayOf"))
 			}
-			return mkRType(types.NewArray(p.rtypeOf(args[1]), int64(n)))
+			et := p.rtypeOf(args[1])
+			if esz := uint64(stdSizes.Sizeof(et)); esz > 0 && uint64(n) > ^uint64(0)/esz {
+				panic(p.reflectPanic("reflect.ArrayOf: array size would exceed virtual address space"))
+			}
+			return mkRType(types.NewArray(et, int64(n)))
 		},
 		"reflect.MapOf": func(p *Path, fr *frame, args []value) value {
 			return mkRType(types.NewMap(p.rtypeOf(args[0]), p.rtypeOf(args[1])))
